@@ -588,17 +588,14 @@ Qed.
 
 Lemma nonev_nodup mode l : gen_pseudo prom_nq v mode false = Some l -> NoDup l.
 Proof.
-  intros Hl. destruct (gen_pseudo_modes prom_nq p Hlegal) as (nq & q & H1 & H2 & H3 & _).
-  destruct (pseudo_exact prom_nq p Hlegal) as (l3 & E3 & _ & N3). rewrite H3 in E3. injection E3 as <-.
-  apply nodup_app_inv in N3 as (Nn & Nq & _).
-  rewrite nonev_list in Hl, H1, H2, H3. injection Hl as <-. injection H1 as <-. injection H2 as <-.
-  unfold ks in *. replace (has_nq 1) with true in Nn by reflexivity. replace (has_q 1) with false in Nn by reflexivity.
-  replace (has_nq 2) with false in Nq by reflexivity. replace (has_q 2) with true in Nq by reflexivity.
-  rewrite app_nil_r in Nn. cbn [app] in Nq.
-  destruct (has_nq mode), (has_q mode); cbn [app]; rewrite ?app_nil_r; try assumption.
-  - destruct (pseudo_exact prom_nq p Hlegal) as (l3 & E3 & _ & N3). rewrite nonev_list in E3. injection E3 as <-.
-    exact N3.
-  - constructor.
+  intros Hl. rewrite nonev_list in Hl. injection Hl as Hl. rewrite <- Hl. clear Hl l.
+  assert (N3 : NoDup (concat (map comp (seq 0 9)) ++ concat (map comp (seq 9 6)))).
+  { destruct (pseudo_exact prom_nq p Hlegal) as (l3 & E3 & _ & N3). rewrite nonev_list in E3. injection E3 as E3.
+    rewrite <- E3 in N3. unfold ks in N3. replace (has_nq 3) with true in N3 by reflexivity.
+    replace (has_q 3) with true in N3 by reflexivity. now rewrite map_app, concat_app in N3. }
+  pose proof (nodup_app_inv _ _ N3) as (Nn & Nq & _).
+  unfold ks. destruct (has_nq mode), (has_q mode); cbn [app]; rewrite ?map_app, ?concat_app, ?app_nil_r; try assumption.
+  constructor.
 Qed.
 
 Theorem evasion_nodup mode le : gen_pseudo prom_nq v mode true = Some le -> NoDup le.
